@@ -58,7 +58,7 @@ theorem snyk_brackets :
 theorem regex_sites_pinned : Gen.regexSites = [
   ("arch.py", "split_depends", "split", "'([<>=]+)'"),
   ("debian.py", "<module>", "compile", "'^(\\\\d+:)?\\\\d([A-Za-z0-9\\\\.\\\\+\\\\~\\\\-]+|[A-Za-z0-9\\\\.\\\\+\\\\~]+-[A-Za-z0-9\\\\+\\\\.\\\\~]+)?$'"),
-  ("debian.py", "get_significant_numbers", "findall", "'[0-9]+'"),
+  ("debian.py", "get_significant_numbers", "findall", "'\\\\d+'"),
   ("gem.py", "GemVersion", "compile", "f'^\\\\s*({VERSION_PATTERN})?\\\\s*$'"),
   ("gem.py", "GemVersion.segments", "compile", "'[0-9]+|[a-z]+'"),
   ("gem.py", "GemRequirement", "escape", "op"),
@@ -72,7 +72,7 @@ theorem regex_sites_pinned : Gen.regexSites = [
   ("rpm.py", "Vercmp", "compile", "b'^([^a-zA-Z0-9~\\\\^]*)(.*)$'"),
   ("rpm.py", "Vercmp", "compile", "b'^([\\\\d]+)(.*)$'"),
   ("rpm.py", "Vercmp", "compile", "b'^([a-zA-Z]+)(.*)$'"),
-  ("versions.py", "ArchLinuxVersion.__hash__", "findall", "'[0-9]+'")] := by decide
+  ("versions.py", "ArchLinuxVersion.__hash__", "findall", "'\\\\d+'")] := by decide
 
 /-- the compiled patterns (final text after f-string substitution, and flags) -/
 theorem compiled_patterns_pinned : Gen.compiledPatterns = [
